@@ -345,6 +345,58 @@ func checkChain(c *stepCtx, st *chainState, prev, cur *jOutcomeView, vc voteCoun
 	}
 }
 
+// C15 seen from outside the aggregator: a mode aggregate in the outcome of a round, and a value published for a
+// (stream, mode) pair in a report of that round, was reported — as exactly that value — by more than f of the
+// observations the round counted.  Timestamped values are exempt: they may be carried forward from earlier rounds (C18).
+func checkModeAgreed(c *stepCtx, cur *jOutcomeView, obs []any, counted []int, reports []any) (checked int) {
+	const aggMode = 2
+	supporters := func(sid uint32, v any) int {
+		want := canon(v)
+		n := 0
+		for _, i := range counted {
+			for _, e := range jArr(jObj(obs[i])["values"]) {
+				if jU32(jget(e, "sid")) == sid && canon(jget(e, "v")) == want {
+					n++
+					break
+				}
+			}
+		}
+		return n
+	}
+	for k, v := range cur.aggs {
+		if k[1] != aggMode || jStr(jObj(v)["t"]) == "tsv" {
+			continue
+		}
+		checked++
+		if n := supporters(k[0], v); n <= c.f {
+			c.bad("mode-aggregate-not-agreed", fmt.Sprintf("the outcome holds a mode aggregate for stream %d that only %d of the counted observations of the round reported (need %d)", k[0], n, c.f+1))
+		}
+	}
+	for _, r := range reports {
+		m := jObj(r)
+		if jStr(m["kind"]) != "channel" {
+			continue
+		}
+		def, ok := cur.defs[jU32(m["channel"])]
+		if !ok {
+			continue
+		}
+		streams := jArr(jget(def, "streams"))
+		vals := jArr(m["values"])
+		for i, st := range streams {
+			if i >= len(vals) || jU32(jget(st, "agg")) != aggMode || vals[i] == nil || jStr(jObj(vals[i])["t"]) == "tsv" {
+				continue
+			}
+			checked++
+			sid := jU32(jget(st, "sid"))
+			if n := supporters(sid, vals[i]); n <= c.f {
+				c.bad("published-mode-value-not-agreed", fmt.Sprintf("channel %d publishes, for the mode of stream %d, a value that only %d of the counted observations of the round reported (need %d)", jU32(m["channel"]), sid, n, c.f+1))
+			}
+		}
+	}
+	return
+}
+
 // C18 on one transition
 func checkTSV(c *stepCtx, prev, cur *jOutcomeView, obs []any, counted []int) (checked int) {
 	referenced := map[[2]uint32]bool{}
@@ -518,6 +570,8 @@ func lloMonitor(prop string) Monitor {
 				nontrivial = len(vc.rm)+len(vc.upd)+vc.retire > 0 || vc.validRR
 			case "C18":
 				nontrivial = checkTSV(c, prev, cur, jArr(op["obs"]), vc.counted) > 0
+			case "C15":
+				nontrivial = checkModeAgreed(c, cur, jArr(op["obs"]), vc.counted, nil) > 0
 			case "C02":
 				nontrivial = checkHonestRange(c, cur, jArr(op["obs"]), jArr(op["honest"]), vc) > 0
 			}
@@ -562,6 +616,10 @@ func lloMonitor(prop string) Monitor {
 					checkChain(c, st, prev, cur, vc, reports)
 				case "C18":
 					tsv += checkTSV(c, prev, cur, jArr(jget(rounds[i], "obs")), vc.counted)
+				case "C15":
+					if checkModeAgreed(c, cur, jArr(jget(rounds[i], "obs")), vc.counted, reports) > 0 {
+						nontrivial = true
+					}
 				case "C02":
 					if checkHonestRange(c, cur, jArr(jget(rounds[i], "obs")), jArr(jget(rounds[i], "honest")), vc) > 0 {
 						nontrivial = true
@@ -674,9 +732,13 @@ func rawBytesOf(res any) string {
 }
 
 func init() {
-	for _, p := range []string{"C01", "C03", "C05", "C06", "C18"} {
+	for _, p := range []string{"C01", "C03", "C05", "C06", "C18", "C15"} {
 		RegMonitor(p, lloMonitor(p))
 	}
+	RegGen("C15", "plus llo.outcome / llo.history ops (worlds with discrete values, streams used with several aggregators by different channels): every mode aggregate of an outcome and every value a report publishes for a (stream, mode) pair was reported identically by more than f counted observations of that round", func(g *G) {
+		genOutcomeCases(g, g.N(200, 3000), "outcome")
+		genHistoryCases(g, g.N(60, 1000), g.N(6, 10), "history")
+	})
 	RegMonitor("C02", lloMonitor("C02"))
 	RegGen("C02", "plus llo.outcome / llo.history ops with labelled honest observers (outcome timestamp and per-stream medians within the honest range)", func(g *G) {
 		genOutcomeCases(g, g.N(200, 3000), "outcome")
